@@ -37,7 +37,7 @@ fn raw_list(r: &mut Rng) -> Req {
     Req::RawList { n, fail_at, shape: r.below(7) as u64 }
 }
 
-pub const NUM_DIRECTED: u64 = 34;
+pub const NUM_DIRECTED: u64 = 35;
 
 /// Directed scenarios; `variant` varies seeds / small timing offsets.
 pub fn directed(idx: u64, variant: u64, d: Duration) -> Scenario {
@@ -283,6 +283,17 @@ pub fn directed(idx: u64, variant: u64, d: Duration) -> Scenario {
             s.world.idle_chunk_delay = vec![ms(variant % 2)];
             s.notifications = (0..40).map(|k| (ms(30 + 9 * k), vec!["player".to_string(), "mixer".into(), "sticker".into(), "output".into(), format!("unknown{}", k)])).collect();
             s.callers = vec![(ms(50 + variant % 90), vec![Step::Do(Req::Raw { shape: 1 }), Step::Think(d / 2), Step::Do(Req::Raw { shape: 3 }), Step::Think(d * 3), Step::Do(Req::Raw { shape: 0 })])];
+        }
+        // a reply with 61-65 distinct field names brings the number of names this connection has seen to 62-66 BEFORE the
+        // first `changed` line ever arrives; that first idle reply is then delivered line by line with a request
+        // arriving between its lines (P1)
+        34 => {
+            s.world.idle_seg = vec![SegPolicy::PerLine];
+            s.world.idle_chunk_delay = vec![ms(30)];
+            let mut first: Vec<Step> = (0..variant % 5).map(|_| Step::Do(Req::Raw { shape: 0 })).collect();
+            first.push(Step::Do(Req::Raw { shape: 7 }));
+            s.callers = vec![(ms(5), first), (ms(500 + 15 + (variant / 5 % 3) * 30), vec![Step::Do(Req::Raw { shape: 1 })])];
+            s.notifications = vec![(ms(500), vec!["player".into(), "mixer".into(), "options".into()])];
         }
         // cancelled call whose request is still executed by the server, next caller right behind
         _ => {
